@@ -352,6 +352,15 @@ impl<H: Host> ZXController<H> {
         self.current_port_7ffd
     }
 
+    /// Restores the paging latch from a snapshot. Unlike a write to the paging port this
+    /// is not subject to the lock bit left behind by whatever was running before
+    pub(crate) fn restore_7ffd(&mut self, val: u8) {
+        if self.machine == ZXMachine::Sinclair128K {
+            self.paging_enabled = true;
+        }
+        self.write_7ffd(val);
+    }
+
     #[cfg(all(feature = "sound", feature = "ay"))]
     fn read_ay_port(&mut self) -> u8 {
         self.mixer.ay.read()
